@@ -17,14 +17,27 @@
      TCP, any option list the encoders produce, IPv4 / IPv6     C06_tcp_frame_wf4, C06_tcp_frame_wf6
      sendSynTCP, every MSS/WS/TS/SACK-permitted combination      C06_syn_frame_wf4
      sendRaw, timestamps on/off, any number of SACK blocks       C06_seg_frame_wf4_any (C06_seg_frame_wf4: untruncated case)
-     UDP (payload <= 65507 / 65527) - PARTIAL: computed checksum non-zero
-                                                                 C06_udp_frame_wf4_partial, C06_udp_frame_wf6_partial
-       refuted in full: a computed checksum of 0 is transmitted as 0 ("none", RFC 768)
-                                                                 C06_udp_zero_checksum_refuted
+     UDP, every datagram (payload <= 65507 / 65527); a computed checksum of 0 goes out as 0xffff
+                                                                 C06_udp_frame_wf4, C06_udp_frame_wf6
+       the code before /repo 723c609 transmitted 0 ("none", RFC 768; illegal over IPv6)
+                                                                 C06_udp_zero_checksum_old_refuted
      ICMPv4 / ICMPv6 echo replies                                C06_icmp4_echo_reply_wf, C06_icmp6_echo_reply_wf
+     ICMPv6 echo requests of the ping transport (sendPing6)      C06_ping6_echo_request_wf
+       the code before /repo 65b8ba4 left the pseudo-header out of the checksum
+                                                                 C06_ping6_no_pseudo_header_old_refuted
      ARP request / reply (RFC 826)                               C06_arp_request_wf, C06_arp_reply_wf
    "on Ethernet links the destination MAC is the one resolved for the next hop" (the route's
-   RemoteLinkAddress, which Route.Resolve sets from the link-address cache, C12)   C06_eth_write_frame
+   RemoteLinkAddress, which Route.Resolve sets from the link-address cache, C12); the source is the
+   route's LocalLinkAddress if it has one, else the NIC's own address
+                                                                 C06_eth_write_frame, C06_eth_write_src_own
+     neighbour solicitations (ipv6 LinkAddressRequest) through the fd-based link: whole frame
+                                                                 C06_ndp_solicit_eth_wf
+       the code before /repo 8cee966 sent them with source 00:00:00:00:00:00
+                                                                 C06_eth_write_zero_src_old_refuted
+   The three _old_refuted theorems are about the definitions [send_udp_old], [ping6_send_old],
+   [eth_write_old] of Model/Emit.v, which keep the text of the code before the repairs; the witnesses
+   are the inputs of the former known findings C06-udp-zero-checksum, C06-ping6-no-pseudo-header,
+   C06-ndp-solicit-zero-src-mac, which the correspondence check keeps generating.
    All frame theorems assume what the callers establish: a unicast source address, a flag byte the
    TCP state machine can produce (flag_sane), payload views whose non-final members have even length
    (a single view in every code path of the stack itself; F7 otherwise), no checksum offload. *)
@@ -165,47 +178,45 @@ Theorem C06_seg_frame_wf4 : forall r sp dp data fl sq ak wnd (tsOk : bool) tsVal
 Proof. exact seg_frame_wf4. Qed.
 Print Assumptions C06_seg_frame_wf4.
 
-Theorem C06_udp_frame_wf4_partial : forall r data sp dp ttl c,
+Theorem C06_udp_frame_wf4 : forall r data sp dp ttl c,
   let L := 8 + vsize data in
   rOffload r = false ->
   length (rLocal r) = 4%nat -> length (rRemote r) = 4%nat -> bytes_ok (rLocal r) -> bytes_ok (rRemote r) ->
   Rfc.src4_ok (rLocal r) = true ->
   0 <= sp < 65536 -> 0 <= dp < 65536 ->
   Forall bytes_ok data -> nonfinal_even data -> vsize data <= 65507 -> 1 <= ttl < 256 ->
-  xsum_of (rLocal r) (rRemote r) 17 L (udp_hdr sp dp L 0 ++ concat data) <> 0 ->
   exists hdr frame,
     send_udp r data sp dp = Some hdr /\
     ipv4_write r hdr data 17 ttl c = Some (frame, bucket_after (20 + L) c) /\
     Rfc.wf_ipv4 false frame = true /\
     Rfc.view_ip4 frame = Rfc.mkIV (rLocal r) (rRemote r) 17 ttl (id_of (20 + L) c) (hdr ++ concat data) /\
     Rfc.view_udp (hdr ++ concat data) = Rfc.mkUV sp dp L (concat data).
-Proof. exact udp_frame_wf4_partial. Qed.
-Print Assumptions C06_udp_frame_wf4_partial.
+Proof. exact udp_frame_wf4. Qed.
+Print Assumptions C06_udp_frame_wf4.
 
-Theorem C06_udp_frame_wf6_partial : forall r data sp dp ttl,
+Theorem C06_udp_frame_wf6 : forall r data sp dp ttl,
   let L := 8 + vsize data in
   rOffload r = false ->
   length (rLocal r) = 16%nat -> length (rRemote r) = 16%nat -> bytes_ok (rLocal r) -> bytes_ok (rRemote r) ->
   nth 0 (rLocal r) 0 <> 255 ->
   0 <= sp < 65536 -> 0 <= dp < 65536 ->
   Forall bytes_ok data -> nonfinal_even data -> vsize data <= 65527 -> 1 <= ttl < 256 ->
-  xsum_of (rLocal r) (rRemote r) 17 L (udp_hdr sp dp L 0 ++ concat data) <> 0 ->
   exists hdr frame,
     send_udp r data sp dp = Some hdr /\
     ipv6_write r hdr data 17 ttl = Some frame /\
     Rfc.wf_ipv6 false frame = true /\
     Rfc.view_ip6 frame = Rfc.mkIV (rLocal r) (rRemote r) 17 ttl 0 (hdr ++ concat data) /\
     Rfc.view_udp (hdr ++ concat data) = Rfc.mkUV sp dp L (concat data).
-Proof. exact udp_frame_wf6_partial. Qed.
-Print Assumptions C06_udp_frame_wf6_partial.
+Proof. exact udp_frame_wf6. Qed.
+Print Assumptions C06_udp_frame_wf6.
 
-Theorem C06_udp_zero_checksum_refuted :
+Theorem C06_udp_zero_checksum_old_refuted :
   exists r data sp dp ttl c hdr frame c',
     rOffload r = false /\ length (rLocal r) = 4%nat /\ Forall bytes_ok data /\ vsize data <= 65507 /\
-    send_udp r data sp dp = Some hdr /\ ipv4_write r hdr data 17 ttl c = Some (frame, c') /\
+    send_udp_old r data sp dp = Some hdr /\ ipv4_write r hdr data 17 ttl c = Some (frame, c') /\
     Rfc.wf_ipv4 false frame = false /\ Rfc.b16 hdr 6 = 0.
-Proof. exact udp_zero_checksum_refuted. Qed.
-Print Assumptions C06_udp_zero_checksum_refuted.
+Proof. exact udp_zero_checksum_old_refuted. Qed.
+Print Assumptions C06_udp_zero_checksum_old_refuted.
 
 Theorem C06_icmp4_echo_reply_wf : forall r data ttl c,
   length (rLocal r) = 4%nat -> length (rRemote r) = 4%nat -> bytes_ok (rLocal r) -> bytes_ok (rRemote r) ->
@@ -236,6 +247,34 @@ Theorem C06_icmp6_echo_reply_wf : forall r x2 x3 i0 i1 q0 q1 more vv ttl,
 Proof. exact icmp6_echo_reply_wf. Qed.
 Print Assumptions C06_icmp6_echo_reply_wf.
 
+Theorem C06_ping6_echo_request_wf : forall r ident x2 x3 i0 i1 q0 q1 rest ttl,
+  length (rLocal r) = 16%nat -> length (rRemote r) = 16%nat -> bytes_ok (rLocal r) -> bytes_ok (rRemote r) ->
+  nth 0 (rLocal r) 0 <> 255 ->
+  0 <= ident < 65536 -> is_byte q0 -> is_byte q1 -> bytes_ok rest ->
+  8 + Z.of_nat (length rest) <= 65535 -> 1 <= ttl < 256 ->
+  let data := 128 :: 0 :: x2 :: x3 :: i0 :: i1 :: q0 :: q1 :: rest in
+  exists icmp frame,
+    ping6_send r ident data = Some (Some (icmp, rest)) /\
+    ipv6_write r icmp [rest] 58 ttl = Some frame /\
+    Rfc.wf_ipv6 false frame = true /\
+    Rfc.view_ip6 frame = Rfc.mkIV (rLocal r) (rRemote r) 58 ttl 0 (icmp ++ rest) /\
+    Rfc.b8 icmp 0 = 128 /\ Rfc.b8 icmp 1 = 0 /\ Rfc.b16 icmp 4 = ident /\
+    skipn 6 (icmp ++ rest) = q0 :: q1 :: rest.
+Proof. exact ping6_echo_request_wf. Qed.
+Print Assumptions C06_ping6_echo_request_wf.
+
+Theorem C06_ping6_no_pseudo_header_old_refuted :
+  exists r ident data icmp pl frame,
+    length (rLocal r) = 16%nat /\ length (rRemote r) = 16%nat /\ bytes_ok data /\
+    ping6_send_old ident data = Some (Some (icmp, pl)) /\
+    ipv6_write r icmp [pl] 58 64 = Some frame /\
+    Rfc.wf_ipv6 false frame = false /\
+    Rfc.sums_to_ffff (icmp ++ pl) = true /\
+    (exists icmp' frame', ping6_send r ident data = Some (Some (icmp', pl)) /\
+       ipv6_write r icmp' [pl] 58 64 = Some frame' /\ Rfc.wf_ipv6 false frame' = true).
+Proof. exact ping6_no_pseudo_header_old_refuted. Qed.
+Print Assumptions C06_ping6_no_pseudo_header_old_refuted.
+
 Theorem C06_arp_request_wf : forall mac spa tpa,
   length mac = 6%nat -> length spa = 4%nat -> length tpa = 4%nat -> nth 0 mac 0 mod 2 = 0 ->
   exists p, arp_request mac spa tpa = Some p /\ Rfc.wf_arp p = true /\
@@ -254,12 +293,43 @@ Print Assumptions C06_arp_reply_wf.
 
 Theorem C06_eth_write_frame : forall r ep proto pkt,
   length (rRemoteLink r) = 6%nat -> 0 <= proto < 65536 ->
-  let src := match rLocal r with [] => ep | _ => rLocalLink r end in
+  let src := match rLocalLink r with [] => ep | _ => rLocalLink r end in
   length src = 6%nat ->
   exists f, eth_write r ep proto pkt = Some f /\
     Rfc.eth_dst f = rRemoteLink r /\ Rfc.eth_src f = src /\ Rfc.eth_type_of f = proto /\ skipn 14 f = pkt.
 Proof. exact eth_write_frame. Qed.
 Print Assumptions C06_eth_write_frame.
+
+Theorem C06_eth_write_src_own : forall r ep proto pkt,
+  length (rRemoteLink r) = 6%nat -> 0 <= proto < 65536 -> length ep = 6%nat ->
+  rLocalLink r = [] \/ rLocalLink r = ep ->
+  exists f, eth_write r ep proto pkt = Some f /\
+    Rfc.eth_dst f = rRemoteLink r /\ Rfc.eth_src f = ep /\ Rfc.eth_type_of f = proto /\ skipn 14 f = pkt.
+Proof. exact eth_write_src_own. Qed.
+Print Assumptions C06_eth_write_src_own.
+
+Theorem C06_ndp_solicit_eth_wf : forall addr localAddr mac,
+  length addr = 16%nat -> length localAddr = 16%nat -> length mac = 6%nat ->
+  bytes_ok addr -> bytes_ok localAddr -> bytes_ok mac ->
+  nth 0 addr 0 <> 255 -> nth 0 localAddr 0 <> 255 -> nth 0 mac 0 mod 2 = 0 ->
+  let r := mkRoute localAddr (solicited_node addr) [] bcast_mac false in
+  exists pkt f,
+    ndp_solicit addr localAddr mac = Some pkt /\
+    eth_write r mac 34525 pkt = Some f /\
+    Rfc.wf_eth false f = true /\
+    Rfc.eth_src f = mac /\ Rfc.eth_dst f = bcast_mac /\ Rfc.eth_type_of f = 34525 /\ skipn 14 f = pkt /\
+    Rfc.view_ip6 pkt = Rfc.mkIV localAddr (solicited_node addr) 58 255 0 (Rfc.ip6_payload pkt) /\
+    Rfc.b8 (Rfc.ip6_payload pkt) 0 = 135 /\ Rfc.sub (Rfc.ip6_payload pkt) 8 16 = addr /\
+    Rfc.sub (Rfc.ip6_payload pkt) 24 8 = [1; 1] ++ mac.
+Proof. exact ndp_solicit_eth_wf. Qed.
+Print Assumptions C06_ndp_solicit_eth_wf.
+
+Theorem C06_eth_write_zero_src_old_refuted :
+  exists r ep proto pkt f, rLocal r <> [] /\ rLocalLink r = [] /\ length ep = 6%nat /\ Rfc.all_eq 0 ep = false /\
+    eth_write_old r ep proto pkt = Some f /\ Rfc.eth_src f = [0; 0; 0; 0; 0; 0] /\
+    (exists f', eth_write r ep proto pkt = Some f' /\ Rfc.eth_src f' = ep).
+Proof. exact eth_write_zero_src_old_refuted. Qed.
+Print Assumptions C06_eth_write_zero_src_old_refuted.
 
 Theorem C06_seg_frame_wf4_any : forall r sp dp data fl sq ak wnd (tsOk : bool) tsVal tsEcr (sackPermitted : bool) blocks pool ttl c,
   rOffload r = false ->
